@@ -69,8 +69,11 @@ class GenElab:
         return {"posonly": [], "poskw": ps, "varpos": None, "kwonly": [], "varkw": None}
 
     def member(self, name, kind, allow_pre=True, snap_pool=None):
-        return {"name": name, "kind": kind, "async": False, "sig": self.sig(kind),
-                "decos": self.decos(kind, allow_pre, snap_pool)}
+        m = {"name": name, "kind": kind, "async": False, "sig": self.sig(kind),
+             "decos": self.decos(kind, allow_pre, snap_pool)}
+        if name in ("f", "g", "p") and self.rng.random() < 0.15:
+            m["abstract"] = True         # abc.abstractmethod under the contracts: abstractness must survive every wrapper
+        return m
 
     def history(self):
         rng = self.rng
@@ -199,7 +202,11 @@ def py_member(m, ind, lines_out):
     body = "return None"
     if name == "__new__":
         body = "return object.__new__(cls)"
-    return helpers, head + [ind + d for d in reversed(decos)] + ["%s%s %s(%s): %s" % (ind, adef, name, text, body)]
+    # a docstring and annotations, so that their preservation can be observed
+    if m.get("abstract"):
+        decos = ["@abc.abstractmethod"] + decos          # nearest to the function
+    return helpers, head + [ind + d for d in reversed(decos)] + ["%s%s %s(%s) -> 'R_%s': 'doc of %s'; %s"
+                                                                 % (ind, adef, name, text, name.strip("_"), name, body)]
 
 
 def py_op(i, op, class_names):
@@ -315,9 +322,9 @@ def cq_zl(l):
 
 
 def cq_fview(v):
-    return "{| fv_chain := %s; fv_pre := %s; fv_snaps := %s; fv_post := %s; fv_intro := %s |}" % (
+    return "{| fv_chain := %s; fv_pre := %s; fv_snaps := %s; fv_post := %s; fv_intro := %s; fv_meta := %s |}" % (
         C.cq_list([cq_role(r) for r in v["chain"]]), C.cq_list([cq_zl(g) for g in v["pre"]]),
-        cq_zl(v["snaps"]), cq_zl(v["post"]), C.cq_bool(v.get("intro", True)))
+        cq_zl(v["snaps"]), cq_zl(v["post"]), C.cq_bool(v.get("intro", True)), C.cq_bool(v.get("meta", True)))
 
 
 def cq_mview(m):
